@@ -3821,3 +3821,129 @@ func ruleSlidePartsByDeclaration(c *eng.Ctx) {
 	}
 	c.Check(relsSeen, R, eng.FuncName(fn)+"#slides", fn.Pos(), "the file-name test is only a fallback next to the relationships part", "validate looks for members named ppt/slides/slide* and never for the presentation's relationships part: a presentation whose declared slide parts have other names is refused although parseSlides could read it")
 }
+
+// ---------------------------------------------------------------------------------------------------------------
+// R18.18 every resolved EPUB href is a cleaned archive path.
+
+// R18.18 [C18]
+func ruleResolvedHrefCleaned(c *eng.Ctx) {
+	const R = "R18.18-RESOLVED-HREF-CLEANED"
+	c.Rule(R, "the archive member name with which epubdoc.(*Reader).loadChapters reads a spine item has been through path.Join or path.Clean on every way it can be computed (in the function, its helpers, or a closure it calls), also when the package file lies at the root of the archive: ZIP member names have no ./ or x/../ segments, so an href such as ./chapter1.xhtml used as it is matches no member and the chapter is silently left out of the spine", 1, 0)
+	fn := c.P.Func("epubdoc.(*Reader).loadChapters")
+	if fn == nil {
+		c.Undec(R, "epubdoc.(*Reader).loadChapters", token.NoPos, "anchor not found")
+		return
+	}
+	isClean := func(call *ssa.Call) bool {
+		switch eng.CalleeName(call) {
+		case "path.Join", "path.Clean", "path/filepath.Clean", "path/filepath.Join":
+			return true
+		}
+		return false
+	}
+	// cleaned(v): every value v can be comes out of a cleaning call
+	var cleaned func(v ssa.Value, depth int, seen map[ssa.Value]bool) bool
+	cleaned = func(v ssa.Value, depth int, seen map[ssa.Value]bool) bool {
+		if seen[v] {
+			return true
+		}
+		seen[v] = true
+		if depth > 8 {
+			return false
+		}
+		switch x := v.(type) {
+		case *ssa.Phi:
+			for _, e := range x.Edges {
+				if !cleaned(e, depth+1, seen) {
+					return false
+				}
+			}
+			return true
+		case *ssa.Extract:
+			return cleaned(x.Tuple, depth+1, seen)
+		case *ssa.ChangeType:
+			return cleaned(x.X, depth+1, seen)
+		case *ssa.UnOp:
+			if a, ok := x.X.(*ssa.Alloc); ok && x.Op == token.MUL {
+				n := 0
+				for _, r := range *a.Referrers() {
+					if st, ok := r.(*ssa.Store); ok && st.Addr == ssa.Value(a) {
+						n++
+						if !cleaned(st.Val, depth+1, seen) {
+							return false
+						}
+					}
+				}
+				return n > 0
+			}
+			// a field of a record filled earlier (chapter.Href): every store to that field in the package
+			if fr, ok := eng.LoadOfField(x); ok {
+				n := 0
+				all := true
+				for _, g := range c.P.ModuleFuncs() {
+					if g.Pkg != fn.Pkg {
+						continue
+					}
+					eng.Instrs(g, true, func(in ssa.Instruction) {
+						st, ok := in.(*ssa.Store)
+						if !ok {
+							return
+						}
+						if f2, ok := eng.AsField(st.Addr); ok && f2.Field == fr.Field && f2.Struct == fr.Struct {
+							n++
+							if !cleaned(st.Val, depth+1, seen) {
+								all = false
+							}
+						}
+					})
+				}
+				return n > 0 && all
+			}
+			return false
+		case *ssa.Call:
+			if isClean(x) {
+				return true
+			}
+			cals := c.P.Callees(x)
+			if len(cals) == 0 {
+				return false
+			}
+			for _, cal := range cals {
+				if cal.Blocks == nil || !eng.InModule(cal) {
+					return false
+				}
+				rets := eng.Returns(cal)
+				if len(rets) == 0 {
+					return false
+				}
+				for _, r := range rets {
+					if len(r.Results) == 0 || !cleaned(r.Results[0], depth+1, seen) {
+						return false
+					}
+				}
+			}
+			return true
+		}
+		return false
+	}
+	n := 0
+	for _, h := range eng.Cluster(fn, 1) {
+		if h.Pkg != fn.Pkg {
+			continue
+		}
+		for _, ci := range eng.Calls(h, true, func(name string, _ ssa.CallInstruction) bool { return strings.HasSuffix(name, ").readFile") }) {
+			if ci.Parent() != fn && ci.Parent().Parent() != fn {
+				continue
+			}
+			args := eng.ArgsWithRecv(ci)
+			if len(args) < 3 {
+				continue
+			}
+			n++
+			c.Check(cleaned(args[2], 0, map[ssa.Value]bool{}), R, fmt.Sprintf("%s#member@%s", eng.FuncName(ci.Parent()), c.P.Pos(ci.Pos())), ci.Pos(), "the member name is a cleaned path", "the member name of a spine item can reach the archive lookup without path.Join/path.Clean: ./ and ../ segments stay in the name, the member is not found and the chapter is dropped")
+		}
+	}
+	if n == 0 {
+		c.Ok(R, eng.FuncName(fn)+"#member", fn.Pos(), "not evaluated: loadChapters does not read members through readFile")
+	}
+}
